@@ -4,7 +4,7 @@ import vlib
 from vlib import run_tlc, require_ok, Verdict, Internal, log
 
 
-def harness(v, prop, cases, parallel=12, timeout=90):
+def harness(v, prop, cases, parallel=12, timeout=90, interop=False):
     vh = vlib.build_harness()
     wd = vlib.scratch("cry-")
     sf, rf = os.path.join(wd, "cases.ndjson"), os.path.join(wd, "res.ndjson")
@@ -28,6 +28,9 @@ def harness(v, prop, cases, parallel=12, timeout=90):
         for vi in o.get("violations") or []:
             if vi["prop"] == prop:
                 v.violation(vi["key"], vi["what"], c)
+            elif interop and c["kind"].startswith("seg"):
+                # C08: "an independent implementation interoperates, the receiver gets exactly the bytes the sender wrote"
+                v.violation("interop:" + vi["key"], vi["what"], c)
             else:
                 v.warn("%s %s: %s" % (vi["prop"], vi["key"], vi["what"]))
         for nc in o.get("nonconf") or []:
@@ -156,9 +159,13 @@ def run_c08(prop, tier, seed, replay=None):
             for _ in range(rng.randint(0, 6)):
                 accept.append(rng.choice([1 << 20, 1 << 20, 1 << 20, 0, 1, 32767, 100, -1]))
             cases.append({"kind": "conn", "writes": writes, "accept": accept})
+        # interoperation with the independent MSE implementation: the encrypted handshakes of the C07 table (every pad
+        # length, both cipher selections, early data), all coalesced and byte at a time
+        rng2 = random.Random(seed)
+        cases += [c for c in seg_cases(tier, rng2) if c.get("hs") == "crypto" and c.get("cuts") in ([], [-1]) and not c.get("skey")]
         for i, c in enumerate(cases):
             c["id"] = i
-    obs = harness(v, prop, cases)
+    obs = harness(v, prop, cases, interop=True)
     v.cov["traces_validated_against_impl"] = len(cases)
     v.cov["evaluations"] = len(cases)
     v.cov["distinct_nontrivial"] = len({json.dumps({k: c[k] for k in c if k != "id"}, sort_keys=True) for c in cases})
